@@ -39,6 +39,8 @@ def run(ck):
     # its terminal states are replayed into the real code (identical partition, identical number of loop iterations, else DRIFT)
     models.cg_mc(ck, 4 if q else 5, 3 if q else 4, 3, models.SW_ALL, False, ["Optimal", "BBSafe", "BestConsistent"])
     models.cg_replay(ck, 4 if q else 5, 3 if q else 4, 3, models.SW_ALL)
+    models.ckk_mc(ck, 5, 4, 3, ["Optimal"])
+    models.ckk_replay(ck, 5, 4, 3 if q else 4)
     groups = []
     ilp_objs = [("diff", 0), ("maxsum", 0), ("minsum", 0), ("klargest", 2), ("ksmallest", 2)]
     for i, g in enumerate(P):
